@@ -52,6 +52,9 @@ func Setup(dir string) error {
 			{"ip", "link", "set", "lo", "up"},
 			{"ip", "route", "add", "local", "0.0.0.0/0", "dev", "lo"},
 			{"ip", "-6", "route", "add", "local", "::/0", "dev", "lo"},
+			// public-looking addresses that cannot be reached (connects fail at once with EHOSTUNREACH)
+			{"ip", "route", "add", "unreachable", "45.99.99.0/24", "table", "local"},
+			{"ip", "-6", "route", "add", "unreachable", "2606:4700:99::/48", "table", "local"},
 			{"sysctl", "-qw", "net.ipv4.ip_nonlocal_bind=1", "net.ipv6.ip_nonlocal_bind=1"},
 			{"sysctl", "-qw", "net.ipv4.ip_local_port_range=20000 60999"},
 			{"sysctl", "-qw", "net.core.somaxconn=4096", "net.ipv4.tcp_max_syn_backlog=4096"},
